@@ -837,3 +837,47 @@ func dslReexports(c *an.Ctx, rule string) {
 	c.Okf(rule, "dsl#re-exports", "%d names of package expr are re-exported by package dsl under their own name", n)
 	c.Floor(rule, n, 60, "re-exports of package expr in package dsl")
 }
+
+// pairedFields are the confirmed instances of the paired-store rule (an.PairedStores): two fields of one struct
+// that describe one fact and are read together, so that whoever stores one stores the other before the value is
+// looked at by anyone else. Candidates were listed by `goacheck -pairs` (fields never stored apart anywhere in the
+// module), each instance below was confirmed by reading the readers.
+var pairedFields = map[string]struct {
+	typ, a, b string
+	dirs      []string
+	floor     int
+	why       string
+}{
+	"scheme": {"expr.SchemeExpr", "Name", "In", []string{"expr"}, 5,
+		"the transport element that carries the credential and the place (header, query, body, metadata) it is read from: generators, the OpenAPI documents and the client read both, a name without its location is looked for in the wrong place"},
+	"verrs": {"eval.ValidationErrors", "Errors", "Expressions", []string{"eval"}, 3,
+		"parallel slices: Error() indexes Expressions with the index of Errors, an error appended without its expression shifts every later location or panics"},
+	"reqid": {"middleware.RequestIDOptions", "requestIDHeader", "useRequestID", []string{"middleware"}, 2,
+		"the option that turns the incoming request-ID header on also names the header that is read"},
+}
+
+func pairedStoresRule(c *an.Ctx, rule, instance string) {
+	pi, ok := pairedFields[instance]
+	if !ok {
+		panic("unknown paired-store instance " + instance)
+	}
+	sites := 0
+	for _, d := range pi.dirs {
+		for _, f := range c.AllFuncs(d) {
+			opaque := func(call *ast.CallExpr) bool {
+				h := c.FuncOfObj(an.Callee(f.Pkg.TypesInfo, call))
+				return h != nil && c.IsNewFunc(h)
+			}
+			n, bad := an.PairedStores(f, pi.typ, pi.a, pi.b, opaque)
+			sites += n
+			for _, u := range bad {
+				c.Failf(rule, fmt.Sprintf("%s#unpaired(%s.%s)", c.RefName(f), u.Base, u.Has), u.Store.Pos(),
+					"%s.%s is stored on a path on which %s.%s is not: %s", u.Base, u.Has, u.Base, u.Lacks, pi.why)
+			}
+		}
+	}
+	c.Floor(rule, sites, pi.floor, "stores to "+shortType(pi.typ)+"."+pi.a+"/"+pi.b)
+	if sites > 0 {
+		c.Okf(rule, pi.typ+"#paired stores", "%d stores to %s.%s/%s: each is accompanied by a store to the other field of the same variable before the variable leaves the function or the loop iteration", sites, shortType(pi.typ), pi.a, pi.b)
+	}
+}
